@@ -1533,6 +1533,48 @@ pub fn run_child(what: &str, args: &[String], acc: &mut Acc) -> bool {
             }
             true
         }
+        "c08-late-error" => {
+            // a mock error induced through a clone *while the original is already being torn down* (by the
+            // destructor of a value the original lent) is still an error of this mock: verification must report it
+            struct Bomb(Option<Unimock>);
+            impl Drop for Bomb {
+                fn drop(&mut self) {
+                    if let Some(c) = self.0.take() {
+                        let _ = guarded(|| c.l_opt(1).is_some());
+                    }
+                }
+            }
+            for index in 0..cases {
+                acc.cases += 1;
+                acc.executions += 1;
+                acc.case_hashes.insert(mix3(seed, worker, index));
+                let u = Unimock::new(LMock::l_str.each_call(matching!(_)).returns("x".to_string()));
+                let _ = u.l_str(0).len();
+                let _b: &Bomb = u.make_ref(Bomb(Some(u.clone())));
+                if index % 3 == 1 {
+                    let _b2: &Bomb = u.make_ref(Bomb(Some(u.clone())));
+                }
+                let r = if index % 2 == 0 { guarded(move || drop(u)) } else { guarded(move || u.verify()) };
+                let ok = matches!(&r, Err(Obs::PanicString(m)) if m.contains("L::l_opt") && m.contains("No mock implementation"));
+                acc.bump("late_errors");
+                if !ok {
+                    acc.violations += 1;
+                    if acc.violations <= 5 {
+                        let d = Discrepancy {
+                            props: vec!["C08"],
+                            at: "verification of an original whose lent value's destructor makes a failing call through a clone".into(),
+                            expected: "failure containing the recorded error `L::l_opt(1): No mock implementation found`".into(),
+                            observed: format!("{r:?}"),
+                        };
+                        emit(what, seed, worker, index, &d, "make_ref(Bomb(clone)); drop / verify()", "sequential");
+                    }
+                }
+            }
+            if acc.samples.is_empty() {
+                acc.samples.push("u.make_ref(Bomb(u.clone())) where Bomb::drop calls an unmentioned method on its clone (caught); then drop(u) / u.verify()".into());
+            }
+            true
+        }
         "c15-helper-race" => {
             // several threads share one fresh instance by reference and make their *first* delegated `&self` call
             // at the same moment: the internal delegation helper is created once, every default body runs against
